@@ -334,8 +334,53 @@ def o8(led, rid, ctx):
                   "different model" % (show(cl)[:80] if cl is not None else c.name))
 
 
+def o9(led, rid, ctx):
+    """the bound the proof is concluded with is the incumbent expressed on the scaled objective the
+    predicate is over: best × multiplier in the arm of either direction, in both procedures
+    (best = multiplier × value(scaled objective) by O3, so the product is that value itself)"""
+    lib = ctx.lib
+    n = 0
+    shapes = {}
+    for tag in (LSU, LUS):
+        f = optimise_fn(lib, tag)
+        R = resolver(f)
+        calls = f.calls_named("conclude_proof_optimal")
+        if not calls:
+            raise AnchorMissing("conclude_proof_optimal in %s::optimise" % tag)
+        for c in calls:
+            e = peel(R.operand(c.args[1]), calls=None)
+            alts = e.a if e.k == "phi" else [e]
+            sh = set()
+            for a in alts:
+                a = peel(a, calls=None)
+                n += 1
+                name = a.a.name if a.k == "call" else a.k
+                const = a.b[-1] if a.k == "call" and a.b else None
+                scaled = False
+                if const is not None:
+                    for x in const.walk():
+                        if x.k == "binop" and x.a.startswith("Mul"):
+                            for side in (x.b, x.c):
+                                sd = peel(side, calls=None)
+                                vals = sorted(y.a for y in (sd.a if sd.k == "phi" else [])
+                                              if getattr(y, "k", None) == "const" and y.a is not None)
+                                if vals == [-1, 1]:
+                                    scaled = True
+                sh.add((name, scaled))
+                led.check(scaled, rid, "%s:conclusion:%s" % (tag, name), c.span, "best × multiplier",
+                          "%s::optimise concludes the proof with %s(objective, %s): the incumbent is stored in "
+                          "the user's direction and must be multiplied by the objective multiplier to become a "
+                          "bound on the scaled objective; for a maximisation the proof claims a bound of the "
+                          "wrong sign" % (tag, name, show(const)[:80] if const is not None else "?"))
+            shapes.setdefault(tag, set()).update(sh)
+    led.check(shapes.get(LSU) == shapes.get(LUS), rid, "conclusions-agree", None, "same predicate kinds in both procedures",
+              "the two procedures conclude with different predicate kinds: %s vs %s" % (sorted(shapes.get(LSU, [])), sorted(shapes.get(LUS, []))))
+    led.floor(rid, "conclusion predicate alternatives", n, 6)
+
+
 def run(ctx, led):
     from . import shared
+    run_rule(led, "O9", "the optimality conclusion is stated on the scaled objective: best × multiplier in both directions and both procedures", o9, ctx)
     run_rule(led, "O6", "every solve of the procedures starts from exactly the assumptions it "
              "passes: initialise overwrites the stored assumptions on all paths and dominates the "
              "search (shared with C05-A3)", shared.assumptions_overwritten, ctx)
